@@ -88,8 +88,8 @@ def reach_rule(ctx, db, flags):
                                            'allocation_sites_reached': sorted(mod.head(x)[:100] for x in sites), 'boundaries_cut': {k: len(v) for k, v in cut.items()},
                                            'indirect_call_sites_in_reached_set': sum(i for _, i in ind), 'functions_with_indirect_calls': [a[:90] for a, _ in ind][:12]}
     # indirect calls must stay within the expected carriers: awaiter::resume's function pointer and user callables of the driver
-    unexpected = [a for a, _ in ind if not re.search(r'cocls::awaiter::resume|coroutine_handle<.*>::(resume|destroy|operator\(\))|cocls::future<.*>::future<|drv\(|lambda|cocls::trailer|cocls::coro_queue|operator<<|result_of|_details::callback_await_coro<', a)]
-    ctx.ob(rid, 'IR:indirect calls', src, not unexpected, 'indirect call sites in the reached set are the expected carriers (awaiter::resume function pointer, coroutine_handle::resume/destroy = the user\'s coroutine, the symmetric transfer inside the library coroutine callback_await_coro, user callables)',
+    unexpected = [a for a, _ in ind if not re.search(r'cocls::awaiter::resume|coroutine_handle<.*>::(resume|destroy|operator\(\))|cocls::future<.*>::future<|drv\(|lambda|cocls::trailer|cocls::coro_queue|operator<<|result_of|_details::callback_await_coro<|cocls::mutex::unlock<', a)]
+    ctx.ob(rid, 'IR:indirect calls', src, not unexpected, 'indirect call sites in the reached set are the expected carriers (awaiter::resume function pointer, coroutine_handle::resume/destroy = the user\'s coroutine, the symmetric transfer inside the library coroutine callback_await_coro, the hand-over functor of mutex::unlock - whose possible targets are followed as address-taken references -, user callables)',
            detail={'unexpected': [u[:160] for u in unexpected[:6]]}, desc='unexpected indirect call carrier in the core')
 
 
@@ -132,8 +132,21 @@ def enqueue_only_active(ctx, db):
                 enq = [c for c in calls(tr, 0) if norm(c.get('callee')) in C05.ENQ]
                 if enq and mode != 'active':
                     bad = bad or tr
+            # the callables handed to install_queue_and_call (and closures written inside them) run in normal mode: they must not enqueue
+            from ..core import var_def
+            handed = set()
+            for e in f.events():
+                if e.k == 'call' and norm(e.get('callee')) in C05.INSTALL:
+                    for a in e.get('args') or []:
+                        p_ = a.get('path') or ''
+                        m_ = re.fullmatch(r'(?:move|forward)?\(?local:(\w+)\)?', p_)
+                        if m_:
+                            p_ = (var_def(f, m_.group(1), e.get('loc')) or {}).get('init') or p_
+                        if p_.startswith('lambda@'):
+                            handed.add(p_[7:])
             for lf in lambdas_of(db, name):
-                if any(e.k == 'call' and norm(e.get('callee')) in C05.ENQ for e in lf.events()):
+                inside = lf['key'] in handed or any(a_['key'] in handed for a_ in C05._ancestors(db, lf))
+                if inside and any(e.k == 'call' and norm(e.get('callee')) in C05.ENQ for e in lf.events()):
                     bad = bad or [Item(k='abort', why='callable for normal mode enqueues')]
             ctx.ob(rid, f, f['key'], bad is None, '%s enqueues only in coroutine mode' % name.split('::', 1)[1], desc='%s enqueues into the ready deque outside coroutine mode' % name,
                    trace=fmt_trace(bad) if bad else None)
